@@ -353,7 +353,8 @@ func cmdCheck(args []string) int {
 		if len(hs) == 0 {
 			inconclusive = append(inconclusive, "no harness matches "+g.Funcs+" in "+g.Pkg)
 		}
-		for _, fn := range hs {
+		harnessNames[g.Pkg] = nil
+		for _, fn := range harnessFuncs(sp, regexp.MustCompile(".*")) {
 			harnessNames[g.Pkg] = append(harnessNames[g.Pkg], fn.Name())
 		}
 		type job struct {
